@@ -865,6 +865,12 @@ class Message(ABC):
                 # Found a non-sentinel value
                 all_sentinel = False
 
+                if isinstance(value, Message) and not value._betterproto.meta_by_field_name:
+                    # A field-less message carries nothing but its presence. A
+                    # constructor that stores its arguments without going through
+                    # __setattr__ (pydantic dataclasses) has not marked it yet.
+                    value._serialized_on_wire = True
+
                 if meta.group:
                     # This was set, so make it the selected value of the one-of.
                     group_current[meta.group] = field_name
